@@ -208,9 +208,11 @@ CHECKS.update({
              "stamps, for ever; cache is empty or ref+t and a filled cache never goes stale; dtg_start/dtg_end = first/last instant; "
              "first reference set on a reference-less series fixes the instants, t untouched; rejected calls leave the state unchanged "
              "and are exactly {non-datetime, None without reference}; path independence / idempotence; _check_time_arrays passes iff "
-             "all references are equal. Tied by correspondence after every step on ALL histories of length <= 3 (4 thorough) over a "
+             "all references are equal; with in-place processing in the history (modify with a window: a mask of retained samples) the cache "
+             "invariant still holds and exactly the instants of the retained samples remain (F54 fixed). Tied by correspondence after every step on ALL histories of length <= 3 (4 thorough) over a "
              "6-letter alphabet x 13 constructor kinds (floats, datetime, datetime64[us|ms|s|ns], pandas Timestamp) + seeded random "
-             "histories on a 1/64 s grid, and of the reference rule of _check_time_arrays.",
+             "histories on a 1/64 s grid, histories with modify(twin) (dtg.runx), 2-5 series built from one time array object, and of the "
+             "reference rule of _check_time_arrays.",
         note=TB + "timedelta's microsecond rounding and float rounding not modelled: measured <= 1 us on realistic histories (tolerance 2 us).",
         ref="4/C18"),
 })
